@@ -143,15 +143,22 @@ Proof.
     rewrite Bool.orb_assoc. reflexivity.
 Qed.
 
+Lemma contains_opt_text : forall w o rest, w <> [] -> nosp w = true ->
+  contains (opt_text o ++ rest) w = (match o with Some t => contains t w | None => false end || contains rest w)%bool.
+Proof.
+  intros w o rest Hne Hs. destruct o as [t|]; [|reflexivity].
+  unfold opt_text. rewrite <- app_assoc. cbn [app]. apply contains_sep; assumption.
+Qed.
+
 Theorem contains_fts_text : forall w a b, wf_term w = true ->
-  contains (fts_text a b) w = (contains a w || match b with Some t => contains t w | None => false end)%bool.
+  contains (fts_text a b) w =
+  (match a with Some t => contains t w | None => false end || match b with Some t => contains t w | None => false end)%bool.
 Proof.
   intros w a b H. unfold wf_term in H. apply Bool.andb_true_iff in H. destruct H as [Hl Hs].
   apply Nat.leb_le in Hl. assert (Hne : w <> []) by (destruct w; [cbn in Hl; lia|discriminate]).
-  unfold fts_text. rewrite (contains_sep w a _ Hne Hs). f_equal.
-  destruct b as [t|].
-  - rewrite (contains_sep w t [] Hne Hs). cbn [contains]. destruct w; [contradiction|]. cbn [prefix]. apply Bool.orb_false_r.
-  - cbn [contains]. destruct w; [contradiction|]. reflexivity.
+  unfold fts_text. rewrite (contains_opt_text w a _ Hne Hs). f_equal.
+  rewrite <- (app_nil_r (opt_text b)). rewrite (contains_opt_text w b [] Hne Hs).
+  cbn [contains]. destruct w; [contradiction|]. cbn [prefix]. apply Bool.orb_false_r.
 Qed.
 
 (* ---------- trigram lists ---------- *)
